@@ -103,6 +103,10 @@ func runScatterCase(c ScatterCase) (vkit.Info, error) {
 	collapse, forced, handBack := false, false, false
 	for rep := 0; rep < reps; rep++ {
 		st, err := runScatterOnce(&c, x, rep)
+		if err == errUnsound {
+			info.Inconclusive = true
+			return info, nil
+		}
 		if err != nil {
 			return info, fmt.Errorf("execution %d of %d: %v", rep+1, reps, err)
 		}
